@@ -52,6 +52,16 @@ pub fn generate(g: &mut Gen, thorough: bool) {
         g.push(format!("S_C14\tseries\t{ellps}\trectifying\t{}", data_of(&geo)), "oracle-series-rectifying", true);
         g.push(format!("S_C14\tseries\t{ellps}\tarc\t{}", data_of(&geo)), "oracle-meridian-arc-quadrature", true);
     }
+    // the series on spheres (every term vanishes, what is left must be the identity) and on the most flattened shapes
+    for ellps in ["sphere", "unitsphere", "mprts", "6378137,150"] {
+        let geo: Vec<[f64; 4]> = (0..8).map(|_| [g.rng.uniform(-3.1, 3.1), g.rng.uniform(-1.55, 1.55), 0.0, 2000.0]).collect();
+        g.push(format!("S_C14\tseries\t{ellps}\t\t{}", data_of(&geo)), "oracle-series-closed-forms", true);
+        g.push(format!("S_C14\tseries\t{ellps}\trectifying\t{}", data_of(&geo)), "oracle-series-rectifying", true);
+        for kind in ["conformal", "rectifying", "authalic"] {
+            g.push(op_line("default", &[], &[], &format!("latitude {kind} ellps={ellps}"), "apply", "F", &data_of(&geo)), "model-latitude-extreme-shapes", true);
+            g.push(op_line("default", &[], &[], &format!("latitude {kind} ellps={ellps}"), "apply", "I", &data_of(&geo)), "model-latitude-extreme-shapes", true);
+        }
+    }
     // axisswap and adapt for the mappings they share
     let words = c11::valid_descriptors();
     for w in words.iter().filter(|w| !w.contains('_')).take(if thorough { 400 } else { 120 }) {
